@@ -302,6 +302,9 @@ func cmdCheck(args []string) int {
 			continue
 		}
 		nObl++
+		if w.R.Seconds > 3 && *verbose {
+			fmt.Printf("SLOW %.1fs %s (%s %s)\n", w.R.Seconds, w.Full, w.R.Answer, w.R.Solver)
+		}
 		ok := w.R.Answer == "unsat" && !tainted
 		if ok {
 			nDis++
